@@ -122,13 +122,28 @@ def generate(seed: int, tier: str = "quick") -> dict:
         add(rs_.randint(first, nb - 1), rs_.choice([1, 3, 3, 4]), "aave.stress_read", {"factors": fs})
         faults.append({"kind": "status_of_the_bar_set_again_with_other_prices"})
     program = [p for _, p in sorted(enumerate(program), key=lambda e: (e[1]["bar"], PHASES.index(e[1]["phase"]), e[0]))]
+    re_ = R.sub(seed, "edit_risk")
+    if re_.random() < 0.12:
+        # the risk-parameter table edited in place after the market was built (before run() is called, or at the head of a
+        # bar): limits and figures follow the table as it is now
+        cands = [t for t in toks if mw["risk"][t]["collateral"] and mw["risk"][t]["lt"] > 0]
+        if cands:
+            t = re_.choice(cands)
+            f = re_.choice([0.85, 0.93, 1.04, 1.1])
+            lt = max(200, min(9800, int(mw["risk"][t]["lt"] * f)))
+            ltv = max(100, min(lt - 100, int(mw["risk"][t]["ltv"] * f)))
+            eb = re_.choice([-2, -2, re_.randint(0, nb - 1)])
+            e = {"bar": eb, "phase": "pre_run" if eb == -2 else "before_bar", "op": "aave.edit_risk", "m": "aave0", "a": {"token": t, "ltv": ltv, "lt": lt}}
+            pos = 0 if eb == -2 else next((i for i, o in enumerate(program) if o["bar"] >= eb), len(program))
+            program.insert(pos, e)
+            faults.append({"kind": "risk_parameter_table_edited_in_place:" + ("before_run" if eb == -2 else "mid_run")})
     by = A.add_bystander(R.sub(seed, "bystander"), world)
     if by is not None:
         faults.append({"kind": "second_market_of_the_same_kind_registered_first"})
         if R.sub(seed, "bystander_busy").random() < 0.6:  # the second pool is in use too (positions, reads at the head of the bars)
             order = ["initialize", "before_bar", "trigger", "on_bar", "after_bar", "notify"]
             program = A.bystander_program(R.sub(seed, "bystander_ops"), world, by, nb) + program
-            program = [p for _, p in sorted(enumerate(program), key=lambda e: (e[1]["bar"], order.index(e[1]["phase"]), e[0]))]
+            program = [p for _, p in sorted(enumerate(program), key=lambda e: (e[1]["bar"], order.index(e[1]["phase"]) if e[1]["phase"] in order else -1, e[0]))]
     return {"property": ID, "seed": seed, "world": world, "program": program, "faults": faults}
 
 
